@@ -186,6 +186,12 @@ func run(r *mon.Run) {
 				}
 				g := r.Rand("payload", idx)
 				one(r, d, g.Bytes(l), rs, "grid", schedules, 257)
+				if l > 0 {
+					// identical records (all-zero payload, and one record repeated): nothing may be merged or skipped
+					one(r, d, make([]byte, l), rs, "grid-zeros", schedules[:2], 0)
+					rep := bytes.Repeat(g.Bytes(rs), l/rs+1)[:l]
+					one(r, d, rep, rs, "grid-repeated-record", schedules[:2], 0)
+				}
 			}
 		}
 		for _, rs := range []int{255, 256, 4095, 4096, 16383, 16384} {
